@@ -229,7 +229,7 @@ def xconsts():
 def _run_own(ctx):
     ctx.level = "proof"
     have = os.path.exists(os.path.join(vlib.COQ, "Properties_C13.v"))
-    proved = vlib.prove(ctx, ["Properties_C13.v"], facts=["cred", "base64", "replay", "retryloop", "retrymsgio", "fd"]) if have else False
+    proved = vlib.prove(ctx, ["Properties_C13.v"], facts=["cred", "base64", "replay", "retryloop", "retrymsgio", "fd", "cfun"]) if have else False
     ctx.log("proofs:", "ok" if proved else "BROKEN/absent: " + getattr(ctx, "broken_obligation", "Properties_C13.v"))
     ctx.cov["rule"] = ("fault plans = sequences of up to 5 per-attempt faults at the proxy (W k: request cut after k bytes while the "
                        "client writes, k=0 with the client held until the peer has hung up; Q k: request cut on the way; L k: reply "
